@@ -49,6 +49,9 @@ def expr(e):
         return "(" + op + expr(e["e"]) + ")"
     if k == "bin":
         return "(" + expr(e["l"]) + " " + _BIN[e["op"]] + " " + expr(e["r"]) + ")"
+    if k == "fcall":
+        from pv import c01_gen
+        return c01_gen.HELPERS[e["name"]]["use"] + "(" + ", ".join(top(a) for a in e["args"]) + ")"
     if k == "icall":
         args = [top(a) for a in e["args"]]
         for nm in e.get("named_order", sorted(e.get("named", {}))):
@@ -89,14 +92,13 @@ def simple_stmt(s):
     k = s["k"]
     if k == "assign":
         return expr_lhs(s["lhs"]) + " = " + top(s["rhs"])
-    if k == "exit":
-        return "exit"
-    if k == "cycle":
-        return "cycle"
+    if k in ("exit", "cycle"):
+        return k + (" " + s["label"] if s.get("label") else "")
     if k == "return":
         return "return"
     if k == "call":
-        return "call " + s["name"] + "(" + ", ".join(top(a) for a in s["args"]) + ")"
+        from pv import c01_gen
+        return "call " + c01_gen.HELPERS[s["name"]]["use"] + "(" + ", ".join(top(a) for a in s["args"]) + ")"
     raise ValueError("not an action statement: " + k)
 
 
@@ -117,12 +119,21 @@ def stmt(s, ind):
     if k in ("assign", "exit", "cycle", "return", "call"):
         return [p + simple_stmt(s)]
     if k == "loop":
+        lab = s.get("label")
+        pre, post = (lab + ": ", " " + lab) if lab else ("", "")
+        if s.get("concurrent"):
+            inner = s["body"][0]
+            head = f"do concurrent ({s['var']} = {expr(s['lo'])}:{expr(s['hi'])}, {top(inner['cond'])})"
+            return [p + pre + head] + stmts(inner["then"], ind + 1) + [p + "end do" + post]
         head = f"do {s['var']} = {top(s['lo'])}, {top(s['hi'])}"
         if s["st"]["k"] != "none":
             head += ", " + top(s["st"])
-        return [p + head] + stmts(s["body"], ind + 1) + [p + "end do"]
+        return [p + pre + head] + stmts(s["body"], ind + 1) + [p + "end do" + post]
     if k == "while":
-        return [p + f"do while ({top(s['cond'])})"] + stmts(s["body"], ind + 1) + [p + "end do"]
+        lab = s.get("label")
+        pre, post = (lab + ": ", " " + lab) if lab else ("", "")
+        return [p + pre + f"do while ({top(s['cond'])})"] + stmts(s["body"], ind + 1) + \
+            [p + "end do" + post]
     if k == "if":
         if s.get("single"):
             return [p + f"if ({top(s['cond'])}) " + simple_stmt(s["then"][0])]
@@ -174,14 +185,14 @@ def decl(d, intent=None):
     return s + " :: " + d["name"]
 
 
-def routine(name, args, decls, body, ind=1):
+def routine(name, args, decls, body, ind=1, kind="subroutine", prefix="", suffix=""):
     '''decls: list of (decl, intent or None) in declaration order'''
     p = "  " * ind
-    out = [p + f"subroutine {name}(" + ", ".join(args) + ")"]
+    out = [p + (prefix + " " if prefix else "") + f"{kind} {name}(" + ", ".join(args) + ")" + suffix]
     for d, intent in decls:
         out.append(p + "  " + decl(d, intent))
     out += stmts(body, ind + 1)
-    out.append(p + f"end subroutine {name}")
+    out.append(p + f"end {kind} {name}")
     return out
 
 
